@@ -45,6 +45,32 @@ the fit); a quarter of the tables has values of 2^10..2^60.  Oracles besides the
     hides everything); for weights mixed within the fit with tolerance 256*INACTIVE_TOL up to a half-spread of 2^4 (structured) /
     2^10 (scattered), not at all beyond: the solver's stopping rule is absolute in the gradient normalised to its largest entry.
 Signatures of this family carry the suffix :large-weights (heaviest weights >= 2^16) or :small-weights (lightest <= 2^-20).
+
+Fourth stream (knot-scale family, harness/c10_knotscale.h, sub-command `knotscale` of the same binary; theorem
+C10_knot_scale_equivariant and its parts in Props/C10.lean): 1-d (two thirds) and 2-d problems, penalty order of the monotonic
+dimension 1, 2, 3 in turn, spline order penalty order..4, smoothing 0.1..100 (10..1000 for the ripple class), data classes inactive
+(smooth increasing) / increasing with a ripple that the smoothing irons out / oscillating / decreasing / noisy increasing.  Every
+problem is fitted four times: monotonic and unconstrained at scale 1, monotonic and unconstrained on the rescaled axes (knots and
+abscissae of dimension d times h_d, smoothing times h_d^(2 p_d); h of the monotonic dimension from 2^20, 2^30, 2^-20, 1e6 and, by
+penalty order, 2^55 / 1e17 (p = 1), 2^40 / 1e9 (p = 2), 2^-30 / 3e-5 (p = 3); another dimension unscaled, same scale or its own).
+Oracles:
+  * `knotscale:mono-differs`, `knotscale:unconstrained-differs`: the fit on the rescaled axes must return the coefficients of the fit
+    at scale 1 (same objective as a function of the coefficients): within KS_POW2_TOL = 2^-22 of the largest coefficient when every h
+    is a power of two (every scaled quantity is then exact and the assembled system bit-identical; measured difference 0), within
+    KS_TOL = 1e-6 otherwise (measured on the unchanged tree, seeds 1..8 x 1500 problems: 0 as well - the float storage of the
+    coefficients hides the 1e-16 perturbation of the knots);
+  * `knotscale:inactive:differs:1d`: in one dimension (where the code's objective is the stated one: code_objective_1d) the inactive
+    clause on the rescaled problem - unconstrained fit at scale h non-negative and increasing with the margin of the first stream =>
+    monotonic fit at scale h equal to it within INACTIVE_TOL (measured worst 2.6e-7);
+  * `knotscale:mono:decreasing-pair` / `knotscale:mono:negative-coefficient`: the first sentence of the property at large and small
+    axis scales, exactly on the float coefficients.
+  * `knotscale:penalty-matrix:mono` / `:plain`: for every dimension of the first 150 (quick) problems the real calc_penalty is called
+    in-process (ndim = 1, mono = 1 and mono = 0) on the knots at scale 1 and on the rescaled knots; `psvdriver C10` (K line) computes
+    the same four matrices exactly from the model (`dtd (finiteDiffMono ..)`, `dtd (finiteDiff ..)` on rationals) and checks the
+    instance of finiteDiff_knot_scale (entries on h*t times h^p = entries on t) on these executed definitions; the code's doubles must
+    agree to PEN_TOL = 1e-12 of the largest entry (measured worst 8e-16).
+These signatures are distinct from the known finding inactive:differs:nd (which compares monotonic with unconstrained in >= 2
+dimensions); the 2-d problems of this stream compare monotonic with monotonic only.
 """
 import json, os, struct
 from fractions import Fraction
@@ -52,6 +78,11 @@ import psvlib
 
 ENV_K = 4096            # rounding envelope of a double-precision evaluation: ENV_K * 2^-53 * sum |c| prod |basis|
 INACTIVE_TOL = 2e-5     # relative to max |coefficient| (float storage 6e-8, two different normal-equation bases)
+KS_POW2_TOL = 2.0 ** -22   # knot-scale stream, every scale a power of two: the assembled systems are bit-identical (two float ulps of the largest coefficient allowed; measured 0)
+KS_TOL = 1e-6           # knot-scale stream, other scales (h*knot is rounded): rounding level (measured 0 in 12 000 problems on the unchanged tree)
+PEN_TOL = 1e-12         # code's DtD of one dimension (calc_penalty, both branches) vs the exact matrix of the model, relative to its largest entry (measured worst 8e-16)
+KS_CLASSES = ["inactive (smooth increasing)", "increasing with a ripple, strong smoothing (inactive once the ripple is ironed out)",
+              "oscillating (active)", "decreasing (active)", "noisy increasing (partly active)"]
 
 
 SHAPES = ["noisy increasing", "decreasing", "oscillating", "noise", "steps with outliers", "inactive (smooth increasing)",
@@ -79,7 +110,8 @@ def build(ctx, mode):
 def describe(pline):
     w = pline.split()
     d = {"problem_line": pline if len(pline) < 60000 else pline[:60000] + " ...", "ndim": int(w[1]), "monodim": int(w[2]),
-         "data": SHAPES[int(w[3])] if int(w[3]) < len(SHAPES) else w[3],
+         "data": SHAPES[int(w[3])] if int(w[3]) < len(SHAPES) else (
+             "knot-scale family: " + KS_CLASSES[int(w[3]) - 20] if 20 <= int(w[3]) < 20 + len(KS_CLASSES) else w[3]),
          "replay_cmd": "python3 bin/check.py C10 --replay <this file>"}
     if len(w) > 6 and w[-6] == "K":
         h = header(pline); wk, wpat, wm, wgd, wdir = [int(x) for x in w[-5:]]
@@ -287,6 +319,194 @@ def evaluate(ctx, cases, impl, acc):
                            "constraint inactive (unconstrained fit non-negative and non-decreasing with margin) but the monotonic fit differs by %.3e relative" % d)
 
 
+# ---------------------------------------------------------------- fourth stream: knot-scale equivariance
+
+def ks_header(pline):
+    """per dimension of a P line: order, penalty order, smoothing, number of coefficients"""
+    w = pline.split(); nd = int(w[1]); p = 4; dims = []
+    for _ in range(nd):
+        o, po, sm, nk = int(w[p]), int(w[p + 1]), dbl(w[p + 2]), int(w[p + 3]); p += 4 + nk; nc = int(w[p]); p += 1 + nc
+        dims.append({"order": o, "penalty_order": po, "smoothing": sm, "ncoef": nk - o - 1, "nabscissae": nc})
+    return dims
+
+
+def ks_rel(a, b):
+    scale = max(abs(v) for v in b) or 1.0
+    return max(abs(x - y) for x, y in zip(a, b)) / scale
+
+
+def ks_penalty(ctx, acc, plines, kfile, cfile):
+    """the code's penalty matrix of one dimension (calc_penalty called in-process, mono = 1 and 0, knots at scale 1 and on the rescaled
+    axis) against the exact matrix of the model (`psvdriver C10`, K line: dtd (finiteDiffMono ..) / dtd (finiteDiff ..) on rationals)"""
+    ks = acc["knotscale"]
+    K = open(kfile).read().splitlines(); C = open(cfile).read().splitlines()
+    dout = kfile + ".drv"
+    if not K: return
+    if len(K) != len(C) or not ctx.driver_ok() or not ctx.run_driver("C10", kfile, dout):
+        ctx.tie_ok = False; ctx.broken.append({"kind": "penalty-matrix records: driver failed or harness output truncated", "K": len(K), "C": len(C)}); return
+    D = open(dout).read().splitlines()
+    if len(D) != len(K):
+        ctx.tie_ok = False; ctx.broken.append({"kind": "penalty-matrix records: driver output truncated", "K": len(K), "D": len(D)}); return
+    owners = [(P, Kl, d) for (P, Kl) in plines for d in range(int(P.split()[1]))]
+    names = ["monotonic branch (finitediff*tril), knots at scale 1", "plain branch, knots at scale 1",
+             "monotonic branch (finitediff*tril), rescaled knots", "plain branch, rescaled knots"]
+    for q, (k, c, d) in enumerate(zip(K, C, D)):
+        cw = c.split(); dw = d.split(); kw = k.split()
+        if dw[0] != "pen" or int(dw[1]) != int(cw[1]):
+            ctx.tie_ok = False
+            if len(ctx.broken) < 5: ctx.broken.append({"kind": "penalty-matrix record rejected by the driver", "K": k[:300], "driver": d[:100]})
+            continue
+        n = int(cw[1]); status = int(cw[2]); order, po, nk = int(kw[1]), int(kw[2]), int(kw[3]); h = dbl(kw[4 + nk])
+        if dw[2] != "thm=1":
+            # instance of finiteDiff_knot_scale on the executed definitions failed: theorem and model have come apart
+            ctx.tie_ok = False
+            if len(ctx.broken) < 5: ctx.broken.append({"kind": "finiteDiff_knot_scale instance failed in the driver", "K": k[:300]})
+        ks["penalty_exact_scaling" if dw[3] == "exact=1" else "penalty_rounded_scaling"] += 1
+        cv = [dbl(u) for u in cw[3:]]; dv = [dbl(u) for u in dw[4:]]
+        P, Kl, dim = owners[q] if q < len(owners) else (None, None, None)
+        for f in range(4):
+            a = cv[f * n * n:(f + 1) * n * n]; b = dv[f * n * n:(f + 1) * n * n]
+            acc["evaluations"] += 1; ks["penalty_matrices"] += 1
+            scale = max(abs(x) for x in b) or 1.0
+            if (status >> f) & 1 or any(x != x for x in a): e = float("inf")
+            else: e = max(abs(x - y) for x, y in zip(a, b)) / scale
+            if e != float("inf"): ks["worst_penalty_rel"] = max(ks["worst_penalty_rel"], e)
+            if e > PEN_TOL:
+                ctx.tie_ok = False
+                nz_exact = sum(1 for x in b if x != 0); nz_code = sum(1 for x in a if x != 0)
+                report(ctx, acc, "knotscale:penalty-matrix:" + ("mono" if f % 2 == 0 else "plain"),
+                       {"knotscale": True, "problem_line": P, "scale_line": Kl, "dimension": dim, "order": order, "penalty_order": po, "ncoef": n,
+                        "axis_scale_h": h, "matrix": names[f], "max_rel_diff": e, "largest_exact_entry": scale, "nonzeros_exact": nz_exact, "nonzeros_code": nz_code,
+                        "knots": [dbl(u) for u in (kw[4:4 + nk] if f < 2 else kw[6 + nk:6 + 2 * nk])], "code_DtD_row_major": a, "exact_DtD_row_major": b,
+                        "replay_cmd": "python3 bin/check.py C10 --replay <this file>"},
+                       "calc_penalty(%s), penalty order %d, spline order %d, %d coefficients, knots %s: the matrix DtD differs from the exact p-th divided-difference penalty by %.3e of its largest entry %.3e (tolerance %.0e; non-zero entries: exact %d, code %d): the smoothing term of this dimension is not the stated one" % (
+                           names[f], po, order, n, "at scale 1" if f < 2 else "times %g" % h, e, scale, PEN_TOL, nz_exact, nz_code))
+
+
+def ks_evaluate(ctx, acc, path, pen=None):
+    """judge the records (P, KS, R) of `mono_harness knotscale|ksreplay`"""
+    lines = open(path).read().splitlines()
+    ks = acc["knotscale"]
+    if len(lines) % 3 != 0:
+        ctx.tie_ok = False; ctx.broken.append({"kind": "knot-scale harness output truncated", "lines": len(lines)})
+    for q in range(0, len(lines) - 2, 3):
+        P, K, R = lines[q:q + 3]
+        if not (P.startswith("P ") and K.startswith("KS ") and R.startswith("R ")):
+            ctx.tie_ok = False; ctx.broken.append({"kind": "knot-scale harness output malformed", "at": q}); return
+        pw = P.split(); nd = int(pw[1]); m = int(pw[2]); cls = int(pw[3]) - 20
+        kw = K.split(); hs = [dbl(kw[2 + 2 * d]) for d in range(nd)]; es = [int(kw[3 + 2 * d]) for d in range(nd)]
+        rw = R.split(); nc = int(rw[1]); ok = rw[2]; v = [flt(u) for u in rw[3:]]
+        m1, u1, mh, uh = [v[k::4] for k in range(4)]
+        dims = ks_header(P); pm = dims[m]["penalty_order"]
+        pow2 = all(e != 9999 for e in es)
+        ks["problems"] += 1; acc["fits"] += 4
+        hdesc = ["2^%d" % e if e != 9999 else "%g" % h for h, e in zip(hs, es)]
+        base = {"knotscale": True, "problem_line": P if len(P) < 60000 else P[:60000] + " ...", "scale_line": K, "ndim": nd, "monodim": m,
+                "data": "knot-scale family: " + (KS_CLASSES[cls] if 0 <= cls < len(KS_CLASSES) else str(cls)),
+                "axis_scale_h": hdesc, "penalty_orders": [d["penalty_order"] for d in dims], "orders": [d["order"] for d in dims],
+                "smoothing_at_scale_1": [d["smoothing"] for d in dims],
+                "smoothing_at_scale_h": [d["smoothing"] * h ** (2 * d["penalty_order"]) for d, h in zip(dims, hs)],
+                "monotonic_fit_scale_1": m1, "unconstrained_fit_scale_1": u1, "monotonic_fit_scale_h": mh, "unconstrained_fit_scale_h": uh,
+                "replay_cmd": "python3 bin/check.py C10 --replay <this file>"}
+        if ok != "1111":
+            report(ctx, acc, "knotscale:fit:threw", dict(base, fits_ok=ok),
+                   "a fit of a well-posed problem threw (flags monotonic/unconstrained at scale 1, monotonic/unconstrained at axis scale %s: %s)" % (hdesc, ok))
+            continue
+        bad = [nm for nm, vec in (("monotonic fit at scale 1", m1), ("unconstrained fit at scale 1", u1), ("monotonic fit at scale h", mh), ("unconstrained fit at scale h", uh))
+               if any(x != x or abs(x) == float("inf") for x in vec)]
+        if bad:
+            report(ctx, acc, "knotscale:nonfinite", dict(base, nonfinite=bad), "non-finite coefficients on a well-posed problem, axis scale %s: %s" % (hdesc, ", ".join(bad)))
+            continue
+        # first sentence of the property at this axis scale, exactly on the floats
+        nax = [d["ncoef"] for d in dims]; s2 = 1
+        for n_ in nax[m + 1:]: s2 *= n_
+        n = nax[m]
+        acc["evaluations"] += 1
+        dec = next(((j, mh[j], mh[j + s2]) for j in range(nc - s2) if (j // s2) % n != n - 1 and not (mh[j] <= mh[j + s2])), None)
+        if dec:
+            report(ctx, acc, "knotscale:mono:decreasing-pair", dict(base, pair={"flat_index": dec[0], "c[j]": dec[1], "c[j+1]": dec[2]}),
+                   "monotonic fit on axes scaled by %s returned coefficients that decrease along monodim=%d: %.9g -> %.9g" % (hdesc, m, dec[1], dec[2]))
+        elif min(mh) < 0:
+            report(ctx, acc, "knotscale:mono:negative-coefficient", dict(base, value=min(mh)),
+                   "monotonic fit on axes scaled by %s returned a negative coefficient %.9g" % (hdesc, min(mh)))
+        else:
+            ks["mono_ok"] += 1; acc["distinct"].add(hash(R))
+        # equivariance: the rescaled problem has the same objective (C10_knot_scale_equivariant), hence the same fits
+        tol = KS_POW2_TOL if pow2 else KS_TOL; key = "pow2" if pow2 else "general"
+        dm = ks_rel(mh, m1); du = ks_rel(uh, u1)
+        acc["evaluations"] += 2; ks["compared_" + key] += 1
+        ks["worst_mono_" + key] = max(ks["worst_mono_" + key], dm); ks["worst_unc_" + key] = max(ks["worst_unc_" + key], du)
+        bykey = "p=%d %s" % (pm, hdesc[m]); ks["by_penalty_order_and_scale"][bykey] = ks["by_penalty_order_and_scale"].get(bykey, 0) + 1
+        if dm > tol:
+            report(ctx, acc, "knotscale:mono-differs", dict(base, max_rel_diff=dm, tolerance=tol),
+                   "monotonic fit on rescaled axes (knots and abscissae times %s, smoothing times h^(2p), p = %s: the same objective) differs from the monotonic fit at scale 1 by %.3e of the largest coefficient (tolerance %.1e; the unconstrained fits differ by %.3e)" % (
+                       hdesc, [d["penalty_order"] for d in dims], dm, tol, du))
+        if du > tol:
+            report(ctx, acc, "knotscale:unconstrained-differs", dict(base, max_rel_diff=du, tolerance=tol),
+                   "unconstrained fit on rescaled axes (knots and abscissae times %s, smoothing times h^(2p), p = %s: the same objective) differs from the unconstrained fit at scale 1 by %.3e of the largest coefficient (tolerance %.1e)" % (
+                       hdesc, [d["penalty_order"] for d in dims], du, tol))
+        # inactive clause, one dimension only (there the code minimises the stated objective: code_objective_1d), at both scales
+        if nd == 1:
+            for tag, mono, unc in (("h", mh, uh), ("1", m1, u1)):
+                scale = max(abs(x) for x in unc) or 1.0; prev = 0.0; inactive = True
+                for x in unc:
+                    if x - prev < 1e-3 * scale: inactive = False
+                    prev = x
+                if not inactive:
+                    if tag == "h": ks["inactive_precondition_failed_class_%d" % cls] += 1
+                    continue
+                d = ks_rel(mono, unc); acc["evaluations"] += 1
+                if tag == "h":
+                    ks["inactive_checked_class_%d" % cls] += 1; ks["inactive_checked"] += 1
+                    ks["worst_inactive_rel"] = max(ks["worst_inactive_rel"], d)
+                if d > INACTIVE_TOL:
+                    report(ctx, acc, "knotscale:inactive:differs:1d" if tag == "h" else "inactive:differs:1d", dict(base, max_rel_diff=d, at_scale=tag),
+                           "1-d, constraint inactive (unconstrained fit at axis scale %s non-negative and increasing with margin) but the monotonic fit at that scale differs from it by %.3e of the largest coefficient (penalty order %d, smoothing %g at scale 1)" % (
+                               hdesc[0] if tag == "h" else "1", d, pm, dims[0]["smoothing"]))
+
+    # last, so that the first replay files of a run are property-level failing inputs (fits), then the matrices behind them
+    if pen:
+        npen = pen[2] if len(pen) > 2 else len(lines) // 3
+        ks_penalty(ctx, acc, [(lines[q], lines[q + 1]) for q in range(0, min(len(lines) - 2, 3 * npen), 3)], pen[0], pen[1])
+
+
+def new_ks():
+    ks = {"problems": 0, "mono_ok": 0, "compared_pow2": 0, "compared_general": 0, "worst_mono_pow2": 0.0, "worst_unc_pow2": 0.0, "worst_mono_general": 0.0,
+          "worst_unc_general": 0.0, "inactive_checked": 0, "worst_inactive_rel": 0.0, "by_penalty_order_and_scale": {},
+          "penalty_matrices": 0, "worst_penalty_rel": 0.0, "penalty_exact_scaling": 0, "penalty_rounded_scaling": 0,
+          "tolerances": {"power_of_two_scales": KS_POW2_TOL, "other_scales": KS_TOL, "inactive_1d": INACTIVE_TOL, "penalty_matrix": PEN_TOL}}
+    for c in range(len(KS_CLASSES)):
+        ks["inactive_checked_class_%d" % c] = 0; ks["inactive_precondition_failed_class_%d" % c] = 0
+    return ks
+
+
+def knot_scale(ctx, acc, dist, exe, mode):
+    n = 900 if ctx.tier == "quick" else 9000
+    if mode != "shipped": n //= 5
+    base = os.path.join(ctx.scratch, "c10ks_" + mode)
+    npen = 150 if ctx.tier == "quick" else 1500
+    if mode != "shipped": npen //= 5
+    rc, out, err, retries = run_harness(ctx, exe, ["knotscale", str(n), base + ".out", base + ".stats", str(npen), base + ".K", base + ".C"], mode)
+    acc["hang_retries"] += retries
+    if rc != 0:
+        ctx.tie_ok = False
+        last = []
+        try: last = [l for l in open(base + ".out").read().splitlines() if l[:2] in ("P ", "KS")][-2:]
+        except Exception: pass
+        ctx.violation({"knotscale": True, "problem_line": last[0] if len(last) == 2 else None, "scale_line": last[1] if len(last) == 2 else None,
+                       "harness_rc": rc, "stderr": err[-2000:]},
+                      "knot-scale stream of the monotonic-fit harness %s (rc=%d) at the problem in the replay file: %s" % ("did not terminate in 3 attempts" if rc == 124 else "aborted", rc, err[-400:]))
+        return
+    st = json.load(open(base + ".stats"))
+    st["classes"] = {str(i): c for i, c in enumerate(KS_CLASSES)}
+    st["rule"] = ("problem it: penalty order of the monotonic dimension 1 + it mod 3; 2-d iff (it div 3) mod 3 = 2; data class (it div 9) mod 5; "
+                  "scale of the monotonic dimension uniform over {2^20, 2^30, 2^-20, 1e6, 2^55|2^40|2^-30, 1e17|1e9|3e-5 (by penalty order 1|2|3)}; "
+                  "smoothing 0.1..100 (class 1, monotonic dimension: 10..1000); four fits per problem")
+    st["penalty_matrix_records"] = "every dimension of the first %d problems: calc_penalty(mono = 1 and 0) on the knots at scale 1 and on the rescaled knots against the exact matrices of the model" % npen
+    dist.setdefault("knot_scale_stream", {})[mode] = st
+    ks_evaluate(ctx, acc, base + ".out", (base + ".K", base + ".C", npen))
+
+
 def judge_values(ctx, acc, prob, values, mono_ok):
     """the surface itself along monodim (C10_surface_monotone_B): for every line of grid points that differ in the monodim
     coordinate only, sorted by that coordinate, the exact value of the returned spline must be non-decreasing (instance of
@@ -342,13 +562,13 @@ def new_acc():
             "worst_err_ratio": 0.0, "inactive_checked": 0, "inactive_precondition_failed": 0, "worst_inactive_rel": 0.0, "scaled_checked": 0, "worst_scaled_rel": 0.0,
             "wscaled_checked": 0, "worst_wscaled_rel": 0.0, "dscaled_checked": 0, "worst_dscaled_rel": 0.0, "wscaled_by_k": [],
             "ws_inactive_checked": 0, "worst_ws_inactive_rel": 0.0, "inactive_skipped_weight_spread": 0, "hang_retries": 0, "distinct": set(), "reported": {},
-            "value_points": 0, "value_pairs": 0, "value_increasing": 0, "worst_value_drop_ratio": 0.0, "inc_ok": 0}
+            "value_points": 0, "value_pairs": 0, "value_increasing": 0, "worst_value_drop_ratio": 0.0, "inc_ok": 0, "knotscale": new_ks()}
 
 
 def finish(ctx, acc, dist):
     ctx.coverage["evaluations"] = acc["evaluations"]
     ctx.coverage["distinct_nontrivial"] = len(acc["distinct"])
-    ctx.coverage["rule"] = ("fit problems drawn from VERIF_SEED by harness/mono_harness.cpp (three streams: ordinary magnitudes; small-magnitude tables and gentle drifts; weight scales 2^-40..2^40, uniform and mixed, smoothing scaled alike or zero); "
+    ctx.coverage["rule"] = ("fit problems drawn from VERIF_SEED by harness/mono_harness.cpp (three streams: ordinary magnitudes; small-magnitude tables and gentle drifts; weight scales 2^-40..2^40, uniform and mixed, smoothing scaled alike or zero; and the knot-scale stream of c10_knotscale.h: each problem fitted at scale 1 and on axes scaled by 2^-30..2^55 / 3e-5..1e17 with smoothing times h^2p); "
                             "a case is non-trivial when the fit returned and its coefficients passed monoAlongB; distinct = distinct fitted tables")
     ctx.coverage["input_distribution"] = dist
     bins = {}
@@ -365,9 +585,14 @@ def finish(ctx, acc, dist):
         "optimality of the constrained fit in the active case is C11's subject (nnls_normal_block3), not checked here",
         "scale equivariance fit(2^k z) = 2^k fit(z) and the inactive comparison are checked to %g of the largest coefficient; small-magnitude tables down to 2^-45 (no float32 subnormals)" % INACTIVE_TOL,
         "weight-scale equivariance fit(4^j w, 4^j lambda) = fit(w, lambda) checked to %g of the largest coefficient for overall weight scales 2^-40..2^40 (even exponents: exact scaling); weights mixed within one fit: half-spread up to 2^10 for structured patterns (gradient, two blocks) and 2^20 for weights scattered over the rows — beyond that the T-spline normal equations are numerically singular when the heavy region lies late along the monotonic dimension (NaN also from an independent double-precision Cholesky) and a region with weights below 1e-9 of the heaviest is invisible to the solver's stopping rule; inactive comparison for mixed weights to %g up to a half-spread of 2^4 / 2^10 only" % (INACTIVE_TOL, 256 * INACTIVE_TOL),
+        "knot-scale equivariance (C10_knot_scale_equivariant): exact arithmetic; tied to the code by comparing fits at axis scale 1 and h to %g (all scales powers of two: systems bit-identical) / %g (other scales) of the largest coefficient; no under/overflow: |log2 h^p| <= 120" % (KS_POW2_TOL, KS_TOL),
     ]
     ctx.note("value_points=%d value_pairs=%d (increasing %d) worst_value_drop_ratio=%.1f inc_ok=%d" % (
         acc["value_points"], acc["value_pairs"], acc["value_increasing"], acc["worst_value_drop_ratio"], acc["inc_ok"]))
+    ks = acc["knotscale"]
+    ctx.note("knot-scale: problems=%d (4 fits each) mono_ok=%d compared power-of-two scales=%d worst mono/unc=%.2e/%.2e other scales=%d worst mono/unc=%.2e/%.2e 1-d inactive at scale h checked=%d worst=%.2e; penalty matrices code vs model=%d worst=%.2e" % (
+        ks["problems"], ks["mono_ok"], ks["compared_pow2"], ks["worst_mono_pow2"], ks["worst_unc_pow2"], ks["compared_general"], ks["worst_mono_general"], ks["worst_unc_general"],
+        ks["inactive_checked"], ks["worst_inactive_rel"], ks["penalty_matrices"], ks["worst_penalty_rel"]))
     ctx.note("fits=%d mono_ok=%d deriv_points=%d (positive %d) worst_neg_ratio=%.1f worst_err_ratio=%.1f inactive checked=%d (precondition failed %d) worst_inactive_rel=%.2e scaled checked=%d worst_scaled_rel=%.2e weight-scaled checked=%d worst_wscaled_rel=%.2e large-value-scaled checked=%d worst_dscaled_rel=%.2e weight-scale inactive checked=%d worst=%.2e hang_retries=%d reported=%s" % (
         acc["fits"], acc["mono_ok"], acc["deriv_points"], acc["deriv_positive"], acc["worst_neg_ratio"], acc["worst_err_ratio"],
         acc["inactive_checked"], acc["inactive_precondition_failed"], acc["worst_inactive_rel"], acc["scaled_checked"], acc["worst_scaled_rel"],
@@ -397,6 +622,7 @@ def run(ctx):
             continue
         dist[mode] = json.load(open(base + ".stats"))
         evaluate(ctx, base + ".in", base + ".impl", acc)
+        knot_scale(ctx, acc, dist, exe, mode)
     large_fits(ctx, acc)
     finish(ctx, acc, dist)
 
@@ -427,12 +653,21 @@ def replay(ctx, path):
     r = json.load(open(path))
     print(json.dumps({k: (v if len(str(v)) < 400 else str(v)[:400] + "...") for k, v in r.items()}, indent=1))
     ctx.audit(extra_props=["C11"])
-    if "problem_line" not in r or r["problem_line"].endswith("..."):
+    if not r.get("problem_line") or r["problem_line"].endswith("...") or (r.get("knotscale") and not r.get("scale_line")):
         run(ctx); return
     exe = build(ctx, "shipped")
     if not exe:
         ctx.tie_ok = False; ctx.broken.append({"kind": "harness build failed"}); return
     base = os.path.join(ctx.scratch, "replay")
+    if r.get("knotscale"):
+        open(base + ".p", "w").write(r["problem_line"] + "\n" + r["scale_line"] + "\n")
+        rc, out, err, retries = run_harness(ctx, exe, ["ksreplay", base + ".p", base + ".out", base + ".K", base + ".C"], "replay")
+        acc = new_acc()
+        if rc != 0:
+            ctx.violation(dict(r, harness_rc=rc), "knot-scale stream of the monotonic-fit harness rc=%d on the replayed problem" % rc)
+        else:
+            ks_evaluate(ctx, acc, base + ".out", (base + ".K", base + ".C"))
+        finish(ctx, acc, {}); return
     open(base + ".p", "w").write(r["problem_line"] + "\n")
     rc, out, err, retries = run_harness(ctx, exe, ["replay", base + ".p", base + ".in", base + ".impl"], "replay")
     acc = new_acc()
